@@ -13,9 +13,19 @@ RUST_BIN = os.path.join(BUILD, "rust-target", "debug", "bpt-harness")
 ENV = dict(os.environ, CARGO_NET_OFFLINE="true", PIP_NO_INDEX="1", GOPROXY="off")
 
 
-def _sh(cmd, cwd=None, timeout=3600):
-    p = subprocess.run(cmd, cwd=cwd, env=ENV, stdout=subprocess.PIPE, stderr=subprocess.STDOUT, timeout=timeout, text=True, errors="replace")
-    return p.returncode, p.stdout
+def _limit():
+    # a runaway implementation (e.g. iteration over a cyclic chain) must not exhaust the sandbox
+    import resource
+    resource.setrlimit(resource.RLIMIT_AS, (12 << 30, 12 << 30))
+
+
+def _sh(cmd, cwd=None, timeout=3600, limited=False):
+    try:
+        p = subprocess.run(cmd, cwd=cwd, env=ENV, stdout=subprocess.PIPE, stderr=subprocess.STDOUT, timeout=timeout, text=True,
+                           errors="replace", preexec_fn=_limit if limited else None)
+        return p.returncode, p.stdout
+    except subprocess.TimeoutExpired as e:
+        return 124, "<timeout after %ss>" % timeout
 
 
 class _Lock:
@@ -50,12 +60,12 @@ def rust_gen(suite, seed, budget, outdir, corpus_lines):
         with open(cp, "w") as f:
             f.write("\n".join(corpus_lines) + "\n")
         args += ["--corpus", cp]
-    rc, out = _sh(args, timeout=7200)
-    return {"ok": rc == 0, "log": out}
+    rc, out = _sh(args, timeout=7200, limited=True)
+    return {"ok": rc == 0, "log": "harness exit status %s\n%s" % (rc, out)}
 
 
 def rust_replay(ops_path, outdir):
-    rc, out = _sh([RUST_BIN, "replay", ops_path, "--out", outdir], timeout=600)
+    rc, out = _sh([RUST_BIN, "replay", ops_path, "--out", outdir], timeout=120, limited=True)
     return rc == 0
 
 
@@ -135,6 +145,8 @@ def measure_tree(kind):
             nonempty = any(l.startswith("R range") and o not in ("[]", "") for l, o in zip(lines, outs))
             empty = any(l.startswith("R range") and o == "[]" for l, o in zip(lines, outs))
             return saw_branch_root and nonempty and empty
+        if kind in ("damage", "helpers"):
+            return saw_branch_root and any(l.startswith("X ") and not l.startswith("X toraw") and not l.startswith("X note") for l in lines)
         if kind == "api":
             return any(o.startswith("err ") for o in outs) and any(o.startswith("ok") for o in outs)
         return True
@@ -159,4 +171,6 @@ SUITES = {
     "tree-iter": {"measure": measure_tree("iter")},
     "tree-range": {"measure": measure_tree("range")},
     "tree-api": {"measure": measure_tree("api")},
+    "tree-damage": {"measure": measure_tree("damage")},
+    "tree-helpers": {"measure": measure_tree("helpers")},
 }
